@@ -29,6 +29,7 @@ RULE = (
     "alternative / back to the base parameter set through set_params, caller overwrites the arrays it passed earlier}, depth 3 (thorough 4), every history replayed on a fresh estimator (histories merged on (abstract state, concrete fingerprint) only for SplineCV), invariant: the "
     "fingerprint equals that of the shortest history with the same abstract state. (c) %d single inconsistencies that must raise. "
     "Non-trivial: every case."
+    " Added axes: read-only / view / Fortran variants compared with round-off tolerance, scribble on outputs then repeat, same array objects with new contents, interference sequences A, B, A over 26 function families, parameter switch events with stale states, invalid table of about 150 inconsistent calls (shapes, component counts, both / neither of shape and spacing, inverted and out-of-range regions incl. UTM-scale and geographic ones)."
 )
 ASSUMPTIONS = ["fingerprints: predictions on a probe set rounded to 9 significant digits (NaN-aware), region_, repr(get_params())",
                "Linear and Cubic keep references to the caller's arrays inside SciPy's interpolator; the 'caller overwrites' event is not applied to "
